@@ -220,7 +220,14 @@ def check_malformed(case):
             else:
                 raise AssertionError(kind)
             stage = "submit"
-            outs = task(cache_root=d / "cache", worker="debug")
+            if case.get("route") == "submitter":  # explicit Submitter instead of calling the task
+                from pydra.engine.submitter import Submitter
+
+                with Submitter(cache_root=d / "cache", worker="debug") as sub:
+                    res = sub(task, raise_errors=True)
+                outs = res.outputs
+            else:
+                outs = task(cache_root=d / "cache", worker="debug")
             ran = read_log(log)
             return [dict(signature=f"malformed-accepted:{kind}",
                          observed=dict(outputs=repr(outs)[:300], executed=len(ran)),
@@ -272,7 +279,8 @@ def malformed_case(draw):
     n = draw(st.integers(1, 3))
     lens = {f: n for f in fs}
     return dict(mode="malformed", kind=draw(st.sampled_from(MALFORMED)), tree=tree, lens=lens,
-                pick=draw(st.integers(0, 7)), pick2=draw(st.integers(0, 7)))
+                pick=draw(st.integers(0, 7)), pick2=draw(st.integers(0, 7)),
+                route=draw(st.sampled_from(["call", "submitter"])))
 
 
 def run(sh):
@@ -289,7 +297,7 @@ def run(sh):
     sh.given(equiv_case("L2"), body, sh.budget(200, 12000), tag="l2")
 
     def bodym(case):
-        sh.run_case(case, nontrivial=True, labels=("malformed_" + case["kind"],),
+        sh.run_case(case, nontrivial=True, labels=("malformed_" + case["kind"], "route_" + case["route"]),
                     raise_unattributed=True)
 
     sh.given(malformed_case(), bodym, sh.budget(400, 16000), tag="mal")
